@@ -23,7 +23,8 @@ CONSTANTS
   CfgName,
   Shard, Shards, \* (reserved)
   Markers,      \* TRUE: add single-page queries under arbitrary markers (paginating backends)
-  EmptySegs     \* TRUE: only key sets holding a key with an empty segment (a//b: legal on the key-value backends)
+  EmptySegs,    \* TRUE: only key sets holding a key with an empty segment (a//b: legal on the key-value backends)
+  MultiDead     \* TRUE: the dead keys (a/a, a/b, b) go in ONE multi-object delete (a whole directory emptied by a batch)
 
 VARIABLES ks
 vars == <<ks>>
@@ -60,7 +61,7 @@ DelimOK(S, d) == d = 0 \/ \A k \in S : k[1] # d /\ k[Len(k)] # d
 DelimSeq(d) == IF d = 0 THEN <<>> ELSE <<d>>
 
 \* two keys that are written and deleted again before the live keys arrive
-Dead(S) == {<<97, 47, 97>>, <<98>>} \ S
+Dead(S) == ({<<97, 47, 97>>, <<98>>} \cup (IF MultiDead THEN {<<97, 47, 98>>} ELSE {})) \ S
 
 Body(i) == IF i % 3 = 0 THEN <<>> ELSE IF i % 3 = 1 THEN <<"x1">> ELSE <<"x2">>
 
@@ -70,7 +71,9 @@ Setup(S) ==
       dead == SortKeys(Dead(S)) IN
   (IF Cfg.single = "" THEN <<[op |-> "CreateBucket", b |-> B]>> ELSE <<>>)
   \o [i \in 1..Len(dead) |-> Put(dead[i], <<"x2">>)]
-  \o [i \in 1..Len(dead) |-> [op |-> "DeleteObject", b |-> B, k |-> dead[i], vid |-> ""]]
+  \o (IF MultiDead /\ dead # <<>>
+        THEN <<[op |-> "DeleteMulti", b |-> B, objs |-> [i \in 1..Len(dead) |-> [k |-> dead[i], vid |-> ""]]]>>
+        ELSE [i \in 1..Len(dead) |-> [op |-> "DeleteObject", b |-> B, k |-> dead[i], vid |-> ""]])
   \o [i \in 1..Len(live) |-> Put(live[i], <<"x2">>)]          \* first write ...
   \o [i \in 1..Len(live) |-> Put(live[Len(live) + 1 - i], Body(i))]   \* ... overwritten in reverse order
 
